@@ -35,7 +35,8 @@ for i in sorted(os.listdir(outdir)):
     log["confirmed"] = ok
     print(pid, i, log)
     if ok:
-        dst = os.path.join(V, "seeded", "%s-%s" % (pid, i))
+        num = int(i) + int(os.environ.get("SEED_OFFSET", "0")) if i.isdigit() else i
+        dst = os.path.join(V, "seeded", "%s-%s" % (pid, num))
         os.makedirs(dst, exist_ok=True)
         for f in ("patch.diff", "demo.py"):
             shutil.copy(os.path.join(d, f), dst)
